@@ -1,6 +1,7 @@
 package main
 
 import (
+	"encoding/hex"
 	"fmt"
 	"go/types"
 	"math/big"
@@ -520,6 +521,27 @@ func init() {
 				return VTuple{VSlice{}, ex.mkErr("encoding/hex: invalid", nil)}
 			}
 			bs, _ := ex.byteTerms(s)
+			allc := true
+			for _, b := range bs {
+				allc = allc && b.Const
+			}
+			if allc {
+				// concrete text: exactly encoding/hex (on an error it still returns the bytes decoded so far)
+				raw := make([]byte, len(bs))
+				for i, b := range bs {
+					raw[i] = byte(b.I.Int64())
+				}
+				dec, err := hex.DecodeString(string(raw))
+				e := make([]Value, len(dec))
+				for i := range e {
+					e[i] = VInt{IntC(int64(dec[i]))}
+				}
+				out := ex.mkSlice(e)
+				if err != nil {
+					return VTuple{out, ex.mkErr("encoding/hex: invalid", nil)}
+				}
+				return VTuple{out, nilErr()}
+			}
 			ok := BoolC(len(bs)%2 == 0)
 			for _, b := range bs {
 				ok = And(ok, isHexDigit(b))
